@@ -9,7 +9,7 @@ open Pico.Lex
 def midRun (m : Nat) (st : Bool) (s : Bytes) : Bytes :=
   let s := if !st then subStartComment [32, 32, 45, 45] s else s
   let s := subLineComment (List.replicate m 32) s
-  if st then subStartComment [45, 45] s else s
+  if st then subStartAnyComment s else s
 
 /-- the last four rewrites of `normRun` -/
 def endRun (m : Nat) (st e : Bool) (s : Bytes) : Bytes :=
@@ -27,8 +27,17 @@ def Clean (s : Bytes) : Prop := ∀ x ∈ s, x ≠ 9 ∧ x ≠ 13
 /-- a `<spaces>--` at the very start has exactly `k` spaces -/
 def StartOK (k : Nat) (s : Bytes) : Prop := ∀ n, spacesThenDashes s = some n → n = k
 
+/-- a `<spaces>--` or `<spaces>//` at the very start has no spaces -/
+def StartAnyOK (s : Bytes) : Prop := ∀ n mk, spacesThenComment s = some (n, mk) → n = 0
+
+/-- what the start rewrite of `normRun` establishes: at the start of the token stream a leading comment (`--` or
+`//`) is not indented; elsewhere a leading `--` comment is preceded by exactly two spaces -/
+def StartGood (st : Bool) (s : Bytes) : Prop := if st then StartAnyOK s else StartOK 2 s
+
+theorem StartGood_true (s : Bytes) : StartGood true s ↔ StartAnyOK s := Iff.rfl
+theorem StartGood_false (s : Bytes) : StartGood false s ↔ StartOK 2 s := Iff.rfl
+
 theorem repl2 : ([32, 32, 45, 45] : Bytes) = List.replicate 2 32 ++ [45, 45] := rfl
-theorem repl0 : ([45, 45] : Bytes) = List.replicate 0 32 ++ [45, 45] := rfl
 
 theorem Clean_of_mem {s t : Bytes} (h : Clean s) (ht : ∀ x ∈ t, x ∈ s ∨ x = 32 ∨ x = 45 ∨ x = 10) : Clean t := by
   intro x hx
@@ -41,7 +50,7 @@ theorem Clean_of_mem {s t : Bytes} (h : Clean s) (ht : ∀ x ∈ t, x ∈ s ∨ 
 theorem midRun_false (m : Nat) (s : Bytes) :
     midRun m false s = subLineComment (List.replicate m 32) (subStartComment [32, 32, 45, 45] s) := rfl
 theorem midRun_true (m : Nat) (s : Bytes) :
-    midRun m true s = subStartComment [45, 45] (subLineComment (List.replicate m 32) s) := rfl
+    midRun m true s = subStartAnyComment (subLineComment (List.replicate m 32) s) := rfl
 
 theorem midRun_clean (m : Nat) (st : Bool) (s : Bytes) (h : Clean s) : Clean (midRun m st s) := by
   apply Clean_of_mem h
@@ -56,38 +65,39 @@ theorem midRun_clean (m : Nat) (st : Bool) (s : Bytes) (h : Clean s) : Clean (mi
     · simp at hx; simp [hx.2]
   | true =>
     rw [midRun_true] at hx
-    rcases mem_subStartComment _ _ _ hx with hx | hx
-    · rcases mem_slc _ _ _ hx with hx | hx
-      · exact Or.inl hx
-      · simp at hx; simp [hx.2]
-    · simp at hx; simp [hx]
+    rcases mem_slc _ _ _ (mem_subStartAnyComment _ _ hx) with hx | hx
+    · exact Or.inl hx
+    · simp at hx; simp [hx.2]
 
 theorem midRun_NoSpLF (m : Nat) (st : Bool) (s : Bytes) (h : NoSpLF s) : NoSpLF (midRun m st s) := by
   cases st with
   | false => rw [midRun_false, repl2]; exact NoSpLF_slc _ _ (NoSpLF_subStartComment _ _ h)
-  | true => rw [midRun_true, repl0]; exact NoSpLF_subStartComment _ _ (NoSpLF_slc _ _ h)
+  | true => rw [midRun_true]; exact NoSpLF_subStartAnyComment _ (NoSpLF_slc _ _ h)
 
-theorem LineOK_subStartComment (m : Nat) (s : Bytes) (h : LineOK m s) : LineOK m (subStartComment [45, 45] s) := by
-  rcases subStartComment_cases [45, 45] s with ⟨_, e⟩ | ⟨n, r, rfl, e⟩
+theorem LineOK_subStartAnyComment (m : Nat) (s : Bytes) (h : LineOK m s) : LineOK m (subStartAnyComment s) := by
+  rcases subStartAnyComment_cases s with ⟨_, e⟩ | ⟨n, c, r, _, rfl, e⟩
   · rwa [e]
   · rw [e]; rw [LineOK_sp_append] at h; exact h
 
 theorem midRun_LineOK (m : Nat) (st : Bool) (s : Bytes) : LineOK m (midRun m st s) := by
   cases st with
   | false => rw [midRun_false]; exact LineOK_slc _ _
-  | true => rw [midRun_true]; exact LineOK_subStartComment _ _ (LineOK_slc _ _)
+  | true => rw [midRun_true]; exact LineOK_subStartAnyComment _ _ (LineOK_slc _ _)
 
-theorem midRun_StartOK (m : Nat) (st : Bool) (s : Bytes) : StartOK (if st then 0 else 2) (midRun m st s) := by
-  intro n hn
+theorem midRun_StartGood (m : Nat) (st : Bool) (s : Bytes) : StartGood st (midRun m st s) := by
   cases st with
   | false =>
+    rw [StartGood_false]
+    intro n hn
     rw [midRun_false, spacesThenDashes_slc, repl2, spacesThenDashes_subStartComment] at hn
     cases h : spacesThenDashes s <;> rw [h] at hn <;> simp at hn
     exact hn.symm
   | true =>
-    rw [midRun_true, repl0, spacesThenDashes_subStartComment] at hn
-    cases h : spacesThenDashes (subLineComment (List.replicate m 32) s) <;> rw [h] at hn <;> simp at hn
-    exact hn.symm
+    rw [StartGood_true]
+    intro n mk hn
+    rw [midRun_true, spacesThenComment_subStartAnyComment] at hn
+    cases h : spacesThenComment (subLineComment (List.replicate m 32) s) <;> rw [h] at hn <;> simp at hn
+    exact hn.1.symm
 
 theorem subStartComment_id (k : Nat) (s : Bytes) (h : StartOK k s) :
     subStartComment (List.replicate k 32 ++ [45, 45]) s = s := by
@@ -97,11 +107,18 @@ theorem subStartComment_id (k : Nat) (s : Bytes) (h : StartOK k s) :
     subst this
     rw [e]; simp
 
-theorem midRun_id (m : Nat) (st : Bool) (s : Bytes) (h1 : LineOK m s) (h2 : StartOK (if st then 0 else 2) s) :
+theorem subStartAnyComment_id (s : Bytes) (h : StartAnyOK s) : subStartAnyComment s = s := by
+  rcases subStartAnyComment_cases s with ⟨_, e⟩ | ⟨n, c, r, hc, rfl, e⟩
+  · exact e
+  · have := h n _ (spacesThenComment_comment n c r hc)
+    subst this
+    rw [e]; simp
+
+theorem midRun_id (m : Nat) (st : Bool) (s : Bytes) (h1 : LineOK m s) (h2 : StartGood st s) :
     midRun m st s = s := by
   cases st with
   | false => rw [midRun_false, repl2, subStartComment_id 2 s h2, slc_of_LineOK m s h1]
-  | true => rw [midRun_true, repl0, slc_of_LineOK m s h1, subStartComment_id 0 s h2]
+  | true => rw [midRun_true, slc_of_LineOK m s h1, subStartAnyComment_id s h2]
 
 /-- the comment rewrites are compositional in front of a line feed -/
 theorem midRun_append_lf (m : Nat) (st : Bool) (E t : Bytes) :
@@ -111,7 +128,7 @@ theorem midRun_append_lf (m : Nat) (st : Bool) (E t : Bytes) :
   | true =>
     rw [midRun_true, midRun_true, slc_append_lf]
     obtain ⟨t', e⟩ := slc_lf_head (List.replicate m 32) t
-    rw [e, subStartComment_append_lf]
+    rw [e, subStartAnyComment_append_lf]
 
 /-! ### `endRun` -/
 
@@ -190,6 +207,28 @@ theorem endRun_StartOK (k m : Nat) (st e : Bool) (s : Bytes) (h : StartOK k s) :
     intro n hn; rw [spacesThenDashes_collapseLF] at hn; exact h2 n hn
   apply subTrailing_sub e _ (StartOK k) h3
   intro n hn; rw [spacesThenDashes_subTrailing] at hn; exact h3 n hn
+
+theorem StartAnyOK_nil : StartAnyOK [] := by
+  intro n mk hn
+  rw [spacesThenComment_nil] at hn; simp at hn
+
+theorem endRun_StartAnyOK (m : Nat) (st e : Bool) (s : Bytes) (h : StartAnyOK s) : StartAnyOK (endRun m st e s) := by
+  rw [endRun_eq]
+  have h1 : StartAnyOK (subFinalIndent (List.replicate m 32) s) := by
+    intro n mk hn; rw [spacesThenComment_subFinalIndent] at hn; exact h n mk hn
+  have h2 : StartAnyOK (if st then subAllSpaces (subFinalIndent (List.replicate m 32) s) else subFinalIndent (List.replicate m 32) s) := by
+    rcases subAllSpaces_sub st (subFinalIndent (List.replicate m 32) s) with e' | e' <;> rw [e']
+    · exact h1
+    · exact StartAnyOK_nil
+  have h3 : StartAnyOK (collapseLF (if st then subAllSpaces (subFinalIndent (List.replicate m 32) s) else subFinalIndent (List.replicate m 32) s)) := by
+    intro n mk hn; rw [spacesThenComment_collapseLF] at hn; exact h2 n mk hn
+  apply subTrailing_sub e _ StartAnyOK h3
+  intro n mk hn; rw [spacesThenComment_subTrailing] at hn; exact h3 n mk hn
+
+theorem endRun_StartGood (m : Nat) (st e : Bool) (s : Bytes) (h : StartGood st s) : StartGood st (endRun m st e s) := by
+  cases st with
+  | false => exact endRun_StartOK 2 m false e s h
+  | true => exact endRun_StartAnyOK m true e s h
 
 theorem endRun_NoTriple (m : Nat) (st e : Bool) (s : Bytes) : NoTriple (endRun m st e s) := by
   rw [endRun_eq]
@@ -342,14 +381,14 @@ theorem endRun_idem (m : Nat) (st e : Bool) (s : Bytes) :
 
 theorem normRun_good (w d : Nat) (st e : Bool) (r : Bytes) :
     Clean (normRun w d st e r) ∧ NoSpLF (normRun w d st e r) ∧ LineOK (w * d) (normRun w d st e r) ∧
-      StartOK (if st then 0 else 2) (normRun w d st e r) ∧ NoTriple (normRun w d st e r) := by
+      StartGood st (normRun w d st e r) ∧ NoTriple (normRun w d st e r) := by
   rw [normRun_eq]
   refine ⟨?_, ?_, ?_, ?_, endRun_NoTriple _ _ _ _⟩
   · apply endRun_clean; apply midRun_clean
     intro x hx; exact normBreaks_clean r x (mem_dsl _ _ hx)
   · exact endRun_NoSpLF _ _ _ _ (midRun_NoSpLF _ _ _ (NoSpLF_dsl _))
   · exact endRun_LineOK _ _ _ _ _ (midRun_LineOK _ _ _)
-  · exact endRun_StartOK _ _ _ _ _ (midRun_StartOK _ _ _)
+  · exact endRun_StartGood _ _ _ _ (midRun_StartGood _ _ _)
 
 theorem normRun_idem (w d : Nat) (st e : Bool) (r : Bytes) :
     normRun w d st e (normRun w d st e r) = normRun w d st e r := by
@@ -410,28 +449,32 @@ theorem normRun_trailing (w d : Nat) (st e : Bool) (a ws b : Bytes) (hws : ws.al
     normBreaks_append ws _ (ws_getLast? ws hws) (by simp), normBreaks_ws ws hws, hb', ← List.append_assoc, dsl_spaces_lf]
 
 theorem lead_aux (m : Nat) (st e : Bool) (Q : Bytes) (hQ : Q.getLast? = some 10) (B : Bytes)
-    (hB : B = [] ∨ (∃ r, B = 45 :: 45 :: r) ∨ (∃ r, B = 10 :: r)) :
+    (hB : B = [] ∨ (∃ c r, Mk c ∧ B = c :: c :: r) ∨ (∃ r, B = 10 :: r)) :
     ∃ R, ∀ j, endRun m st e (midRun m st (dropSpacesBeforeLF (Q ++ List.replicate j 32 ++ B))) = R := by
   obtain ⟨Q', rfl⟩ := List.getLast?_eq_some_iff.mp hQ
   obtain ⟨Y, hY⟩ := dsl_append_lf Q'
-  rcases hB with rfl | ⟨r, rfl⟩ | ⟨r, rfl⟩
+  rcases hB with rfl | ⟨c, r, hc, rfl⟩ | ⟨r, rfl⟩
   · refine ⟨endRun m st e (midRun m st Y ++ [10]), fun j => ?_⟩
     rw [List.append_nil, List.append_assoc, List.singleton_append, hY, dsl_sp, midRun_append_lf, slc_lf_sp, endRun_lf_sp]
   · refine ⟨endRun m st e (midRun m st Y ++ 10 :: (List.replicate m 32 ++
-      45 :: 45 :: subLineComment (List.replicate m 32) (dropSpacesBeforeLF r))), fun j => ?_⟩
-    rw [List.append_assoc, List.append_assoc, List.singleton_append, hY, dsl_sp_cons _ _ _ (by decide) (by decide),
-      dsl_cons_ne _ _ (by decide), midRun_append_lf, slc_lf_comment]
+      c :: c :: subLineComment (List.replicate m 32) (dropSpacesBeforeLF r))), fun j => ?_⟩
+    rw [List.append_assoc, List.append_assoc, List.singleton_append, hY, dsl_sp_cons _ _ _ hc.ne10 hc.ne32,
+      dsl_cons_ne _ _ hc.ne32, midRun_append_lf, slc_lf_comment _ _ _ _ hc]
   · refine ⟨endRun m st e (midRun m st (dropSpacesBeforeLF (Q' ++ [10] ++ 10 :: r))), fun j => ?_⟩
     rw [dsl_spaces_lf]
 
 theorem normRun_leading (w d : Nat) (st e : Bool) (a ws b : Bytes) (hws : ws.all (fun c => c == 32 || c == 9) = true)
-    (hb : b = [] ∨ (∃ r, b = 45 :: 45 :: r) ∨ (∃ r, b = 10 :: r)) :
+    (hb : b = [] ∨ (∃ c r, Mk c ∧ b = c :: c :: r) ∨ (∃ r, b = 10 :: r)) :
     normRun w d st e (a ++ [10] ++ ws ++ b) = normRun w d st e (a ++ [10] ++ b) := by
-  have hbh : b.head? ≠ some 13 := by rcases hb with rfl | ⟨r, rfl⟩ | ⟨r, rfl⟩ <;> simp
-  have hB : normBreaks b = [] ∨ (∃ r, normBreaks b = 45 :: 45 :: r) ∨ (∃ r, normBreaks b = 10 :: r) := by
-    rcases hb with rfl | ⟨r, rfl⟩ | ⟨r, rfl⟩
+  have hbh : b.head? ≠ some 13 := by
+    rcases hb with rfl | ⟨c, r, hc, rfl⟩ | ⟨r, rfl⟩
+    · simp
+    · simp [hc.ne13]
+    · simp
+  have hB : normBreaks b = [] ∨ (∃ c r, Mk c ∧ normBreaks b = c :: c :: r) ∨ (∃ r, normBreaks b = 10 :: r) := by
+    rcases hb with rfl | ⟨c, r, hc, rfl⟩ | ⟨r, rfl⟩
     · exact Or.inl rfl
-    · exact Or.inr (Or.inl ⟨_, normBreaks_dashes r⟩)
+    · exact Or.inr (Or.inl ⟨c, _, hc, normBreaks_marker c r hc⟩)
     · exact Or.inr (Or.inr (normBreaks_lf_cons r))
   obtain ⟨R, hR⟩ := lead_aux (w * d) st e (normBreaks (a ++ [10])) (normBreaks_getLast?_lf _ (by simp)) (normBreaks b) hB
   rw [normRun_eq, normRun_eq]
@@ -442,5 +485,90 @@ theorem normRun_leading (w d : Nat) (st e : Bool) (a ws b : Bytes) (hws : ws.all
   have := hR 0
   simp only [List.replicate_zero, List.append_nil] at this
   rw [this]
+
+/-! ### a comment that starts a line is kept, indented -/
+
+/-- `subFinalIndent` only touches what follows the last byte that is not a space -/
+theorem subFinalIndent_keep (ind X T : Bytes) (c : UInt8) (hX : X.getLast? = some c) (hc : c ≠ 32) :
+    ∃ T', subFinalIndent ind (X ++ T) = X ++ T' := by
+  obtain ⟨pre, k, rfl, hp⟩ := tail_sp_decomp T
+  have hl : (X ++ pre).getLast? ≠ some 32 := by
+    rw [List.getLast?_append]
+    cases h : pre.getLast? with
+    | none => simp [hX, hc]
+    | some x => rw [h] at hp; simpa using hp
+  rw [← List.append_assoc, subFinalIndent_spec ind (X ++ pre) k hl]
+  split
+  · exact ⟨pre ++ ind, by simp⟩
+  · exact ⟨pre ++ List.replicate k 32, by simp⟩
+
+/-- `subTrailing` only touches what follows the last byte that is neither a space nor a line feed -/
+theorem subTrailing_keep (X T : Bytes) (c : UInt8) (hX : X.getLast? = some c) (h32 : c ≠ 32) (h10 : c ≠ 10) :
+    ∃ T', subTrailing (X ++ T) = X ++ T' := by
+  obtain ⟨pre, t, rfl, ht, hp⟩ := tail_decomp (fun b => b == 32 || b == 10) T
+  have hl : (X ++ pre).getLast? ≠ some 32 ∧ (X ++ pre).getLast? ≠ some 10 := by
+    rw [List.getLast?_append]
+    cases h : pre.getLast? with
+    | none => simp [hX, h32, h10]
+    | some x =>
+      have := hp x h
+      simp only [Bool.or_eq_false_iff, beq_eq_false_iff_ne, ne_eq] at this
+      simpa using this
+  rw [← List.append_assoc, subTrailing_spec (X ++ pre) t hl (fun x hx => by simpa using ht x hx)]
+  exact ⟨pre ++ (if t.contains 10 then [10] else []), by simp⟩
+
+/-- the last four rewrites keep a line `<LF> <indent> <marker>` -/
+theorem endRun_keep (m : Nat) (st e : Bool) (P T : Bytes) (c : UInt8) (h32 : c ≠ 32) (h10 : c ≠ 10) :
+    ∃ pre post, endRun m st e (P ++ 10 :: (List.replicate m 32 ++ c :: c :: T)) =
+      pre ++ [10] ++ List.replicate m 32 ++ [c, c] ++ post := by
+  have e0 : P ++ 10 :: (List.replicate m 32 ++ c :: c :: T) = (P ++ [10] ++ List.replicate m 32 ++ [c, c]) ++ T := by simp
+  have hX : ∀ Q : Bytes, (Q ++ [10] ++ List.replicate m 32 ++ [c, c]).getLast? = some c := by
+    intro Q; rw [List.getLast?_append]; rfl
+  rw [endRun_eq, e0]
+  obtain ⟨T1, h1⟩ := subFinalIndent_keep (List.replicate m 32) _ T c (hX P) h32
+  rw [h1]
+  have hA : (if st then subAllSpaces (P ++ [10] ++ List.replicate m 32 ++ [c, c] ++ T1) else P ++ [10] ++ List.replicate m 32 ++ [c, c] ++ T1)
+      = P ++ [10] ++ List.replicate m 32 ++ [c, c] ++ T1 := by
+    cases st with
+    | false => rfl
+    | true =>
+      rcases subAllSpaces_cases (P ++ [10] ++ List.replicate m 32 ++ [c, c] ++ T1) with ⟨h, _⟩ | ⟨_, e'⟩
+      · rw [all_sp_false_of_mem _ 10 (by simp) (by decide)] at h; simp at h
+      · simpa using e'
+  simp only [hA]
+  -- `collapseLF` splits after the line feed and after the marker
+  have hC : ∃ B, collapseLF (P ++ [10] ++ List.replicate m 32 ++ [c, c] ++ T1) =
+      B ++ [10] ++ List.replicate m 32 ++ [c, c] ++ collapseLF T1 := by
+    have hl : (collapseLF (P ++ [10])).getLast? = some 10 := by rw [collapseLF_getLast?]; simp
+    obtain ⟨B, hB⟩ := List.getLast?_eq_some_iff.mp hl
+    refine ⟨B, ?_⟩
+    rw [show P ++ [10] ++ List.replicate m 32 ++ [c, c] ++ T1 = (P ++ [10]) ++ ((List.replicate m 32 ++ [c, c]) ++ T1) by simp,
+      collapseLF_append (P ++ [10]) _ (by intro _; cases m <;> simp [List.replicate_succ, h10]),
+      collapseLF_append (List.replicate m 32 ++ [c, c]) T1 (by intro h; simp at h; exact absurd h h10),
+      collapseLF_no_lf (List.replicate m 32 ++ [c, c]) (by simp [Ne.symm h10]), hB]
+    simp
+  obtain ⟨B, hB⟩ := hC
+  rw [hB]
+  cases e with
+  | false => exact ⟨B, collapseLF T1, rfl⟩
+  | true =>
+    obtain ⟨T2, h2⟩ := subTrailing_keep _ (collapseLF T1) c (hX B) h32 h10
+    exact ⟨B, T2, h2⟩
+
+/-- a line `<LF> <spaces and tabs> <marker>` of a run is written as `<LF> <indent> <marker>` -/
+theorem normRun_comment_line (w d : Nat) (st e : Bool) (a ws b : Bytes) (c : UInt8)
+    (hws : ws.all (fun c => c == 32 || c == 9) = true) (hc : Mk c) :
+    ∃ pre post, normRun w d st e (a ++ [10] ++ ws ++ [c, c] ++ b) =
+      pre ++ [10] ++ List.replicate (w * d) 32 ++ [c, c] ++ post := by
+  have hQ := normBreaks_getLast?_lf (a ++ [10]) (by simp)
+  obtain ⟨Q', hQ'⟩ := List.getLast?_eq_some_iff.mp hQ
+  obtain ⟨Y, hY⟩ := dsl_append_lf Q'
+  have hbh : (c :: c :: b).head? ≠ some 13 := by simp [hc.ne13]
+  have e1 : a ++ [10] ++ ws ++ [c, c] ++ b = (a ++ [10]) ++ (ws ++ c :: c :: b) := by simp
+  rw [normRun_eq, e1, normBreaks_append (a ++ [10]) _ (by simp) (ws_head? ws _ hws hbh),
+    normBreaks_append ws _ (ws_getLast? ws hws) hbh, normBreaks_ws ws hws, normBreaks_marker c b hc, hQ',
+    List.append_assoc, List.singleton_append, hY, dsl_sp_cons _ _ _ hc.ne10 hc.ne32, dsl_cons_ne _ _ hc.ne32,
+    midRun_append_lf, slc_lf_comment _ _ _ _ hc]
+  exact endRun_keep (w * d) st e _ _ c hc.ne32 hc.ne10
 
 end Pico.Ast
